@@ -6,6 +6,8 @@ import H5.Wire
 import H5.Model.OptionalTags
 import H5.Model.Alphabetical
 import H5.Model.Whitespace
+import H5.Model.Infoset
+import Driver.TokOps
 open H5 H5.Wire
 
 def otok : R (Option Tok) := do
@@ -16,6 +18,40 @@ def otok : R (Option Tok) := do
     set (w :: rest)
     let t ← tok
     pure (some t)
+
+def flags : R H5.Model.Infoset.Flags := do
+  let a ← bool; let b ← bool; let c ← bool; let d ← bool; let e ← bool; let f ← bool
+  pure { dropXmlnsLocalName := a, dropXmlnsAttrNs := b, preventDoubleDashComments := c,
+         preventDashAtCommentEnd := d, replaceFormFeedCharacters := e, preventSingleQuotePubid := f }
+
+def handleXml (ws : List String) : String :=
+  open H5.Model.Infoset in
+  match ws with
+  | "xml:toXmlName" :: rest =>
+    match run str rest with
+    | some s => encExcept encStr (toXmlName s)
+    | none => "bad-request"
+  | "xml:fromXmlName" :: rest =>
+    match run str rest with
+    | some s => encExcept encStr (fromXmlName s)
+    | none => "bad-request"
+  | "xml:comment" :: rest =>
+    match run (do let f ← flags; let s ← str; pure (f, s)) rest with
+    | some (f, s) => encExcept encStr (coerceComment f s)
+    | none => "bad-request"
+  | "xml:pubid" :: rest =>
+    match run (do let f ← flags; let s ← str; pure (f, s)) rest with
+    | some (f, s) => "ok " ++ encStr (coercePubid f s)
+    | none => "bad-request"
+  | "xml:chars" :: rest =>
+    match run (do let f ← flags; let s ← str; pure (f, s)) rest with
+    | some (f, s) => "ok " ++ encStr (coerceCharacters f s)
+    | none => "bad-request"
+  | "xml:attr" :: rest =>
+    match run (do let f ← flags; let s ← str; let ns ← ostr; pure (f, s, ns)) rest with
+    | some (f, s, ns) => encExcept encOStr (coerceAttribute f s ns)
+    | none => "bad-request"
+  | _ => "bad-op"
 
 def handle (ws : List String) : String :=
   match ws with
@@ -39,6 +75,11 @@ def handle (ws : List String) : String :=
     match run (list tok) rest with
     | some ts => "ok " ++ encToks (H5.Model.Whitespace.filter ts)
     | none => "bad-request"
+  | op :: rest =>
+    if op.startsWith "xml:" then handleXml (op :: rest) else
+    match handleTok (op :: rest) with
+    | some r => r
+    | none => "bad-op"
   | _ => "bad-op"
 
 partial def loop (h : IO.FS.Stream) (out : IO.FS.Stream) : IO Unit := do
